@@ -187,7 +187,8 @@ fn gen_broker(rng: &mut Rng) -> Case {
                 0 | 1 | 2 | 3 => {
                     next_pub += 1;
                     npubs += 1;
-                    ops.push(Op::Publish { j, m: next_pub, via: rng.below(3) });
+                    // via 3 = Broker::try_publish (publishes only if the topic's broker is already running)
+                    ops.push(Op::Publish { j, m: next_pub, via: rng.below(4) });
                 }
                 4 | 5 => {
                     // an actor publishes from its handler (Context::publish)
